@@ -17,6 +17,19 @@ CHECKS["C04"] = ("abstract evaluation of the functor scan loop on a generic iter
     "Decides from the source of the three Functor.__call__ methods, rigid.cups/caps and Ob/Ty adjoints: fold-by-then, the scan-splice loop invariant result.cod = F(scan), "
     "dispatch order/totality and the structural mapping of swaps, cups, caps, daggers, sums, bubbles, the winding homomorphism, and the cups index chain on symbolic multi-wire types. "
     "With C02's laws these give functoriality; user-supplied images are checked at run time by >> (not decided here).", TB, "DESIGN.md §4 C04")
+CHECKS["C06"] = ("predicate normal forms (linear inequalities) compared between normalize's trigger and interchange's first exchange test; def-use and CFG dominance rules on normalize / normal_form / foliate",
+    "Strategy conformance, not termination: decides that normalize applies interchanges in one direction only (the hypothesis of the Delpeuch-Vicary termination/confluence theorem), that every "
+    "yielded step is a single interchange of the previous value, that the pass loop ends only at a fixed point, and that normal_form's cycle check dominates acceptance and raises "
+    "NotImplementedError. Termination, idempotence and canonicity follow from the cited theorem and are not decided by the analysis.", TB, "DESIGN.md §4 C06")
+CHECKS["C07"] = ("predicate normal forms with opaque type-equality literals for follow_wire / find_snake; structural accounting rules for unsnake; parallel-slice rule for the deletion",
+    "Decides the structural clauses behind snake removal: the three-way split of follow_wire equals the interval spec; a pair is yankable only when the cap's leg enters the opposite leg of a "
+    "Cup AND the surviving wire keeps its type (so deletion composes and well-typed inputs never raise AxiomError); each obstruction loop makes one interchange, one yield and one index "
+    "update; the deletion is a parallel cut under checked >>; Cup/Cap refuse non-adjoint legs. Not decided: the re-indexing of right_obstruction; denotational equality (snake equations, cited).",
+    TB, "DESIGN.md §4 C07")
+CHECKS["C10"] = ("abstract evaluation of Diagram.swap on symbolic types in three emptiness cases, symbolic row-by-row scan of the base case, one generic iteration of permutation (parallel rearrangement), parametricity use-analysis",
+    "Decides for all types and permutations: swap(left, right) is typed left@right -> right@left on distinct wire atoms (hence, by parametricity and induction on |left|, realises exactly the block "
+    "permutation), permutation's layer and its update of `perm` are the same cut-and-paste (invariant: wire at p ends at perm[p]), non-permutations and length mismatches are refused, and each "
+    "diagram class (rigid, tensor, circuit, zx) passes its own Diagram/Swap classes.", TB, "DESIGN.md §4 C10")
 NOT_YET = "check not built yet in this round (static rules designed in DESIGN.md §4; will be claimed when the rule module lands)"
 NOT_APPLICABLE = {("C%02d" % i): NOT_YET for i in range(1, 21) if ("C%02d" % i) not in CHECKS}
 NOTES = ("All checks are static analyses of /repo/discopy's source (python -m sa.check <id>); exit 0 / 1 (VIOLATION) / 2 (ANALYSIS-ERROR). "
